@@ -1432,3 +1432,22 @@ Proof.
   split; [exact w_files_sorted|]. split; [exact w_revs_sorted|].
   vm_compute. repeat split; auto; discriminate.
 Qed.
+
+Lemma first_run_dirty_refused (hash : Type) (c : cfg) (all : list file) :
+  c_dirty c = true -> c_allow_dirty c = false -> c_baseline c = None ->
+  pending (hash := hash) c all [] = (PNotClean, None).
+Proof. intros Hd Ha Hb. rewrite pending_first, Hd, Ha, Hb. reflexivity. Qed.
+
+Lemma first_run_checkpoint (hash : Type) (c : cfg) :
+  c_dirty c && negb (c_allow_dirty c) = false -> c_baseline c = None ->
+  (forall (pre : list file) (ck : file) (rest : list file),
+     f_ckpt ck = true -> (forall f, In f rest -> f_ckpt f = false) ->
+     pending (hash := hash) c (pre ++ ck :: rest) [] = (PFiles (ck :: rest), None)) /\
+  (forall (all : list file),
+     (forall f, In f all -> f_ckpt f = false) ->
+     pending (hash := hash) c all [] = (finish all, None)).
+Proof.
+  intros Hd Hb. split.
+  - intros pre ck rest. apply first_run_from_checkpoint; assumption.
+  - intros all. apply first_run_no_checkpoint; assumption.
+Qed.
